@@ -281,3 +281,25 @@ def translate_mov(ins, w, length):
         else:
             raise Unsupported(text)
     return ";".join(out)
+
+
+def translate_limit(ins, start, term):
+    """the limited-mode budget check -> X86Mov.v (lins) syntax"""
+    out = []
+    for text in ins:
+        t = re.sub(r"\s+", " ", text.strip())
+        if t == "mov rax,QWORD PTR [rbx+0x18]":
+            out.append("load")
+        elif re.match(r"^cmp rax,(0x[0-9a-f]+|\d+)$", t):
+            out.append("cmp %d" % num(t.split(",")[1]))
+        elif t.startswith("jb "):
+            if num(t[3:]) != term - start:
+                raise Unsupported("budget check jumps to %s, the termination path is at %s" % (t[3:], hex(term - start)))
+            out.append("jb")
+        elif t in ("dec rax", "sub rax,0x1"):
+            out.append("dec")
+        elif t == "mov QWORD PTR [rbx+0x18],rax":
+            out.append("store")
+        else:
+            raise Unsupported(text)
+    return ";".join(out)
